@@ -120,6 +120,8 @@ struct Script {
     arm_at: Option<usize>,
     /// a failing write applies the first half of its bytes before reporting the error
     short_writes: bool,
+    /// after the run, replay its file-system calls against the file systems raindb ships
+    replay_on_shipped_file_systems: bool,
 }
 
 #[derive(Clone)]
@@ -157,7 +159,7 @@ fn make_long_wal_script(seed: u64) -> Script {
     for _ in 0..20 {
         ops.push(ScriptOp::Get(rng.pick(&pool).clone()));
     }
-    Script { cfg, pool, ops, arm_at: Some(arm_at), short_writes: false }
+    Script { cfg, pool, ops, arm_at: Some(arm_at), short_writes: false, replay_on_shipped_file_systems: false }
 }
 
 /// A compaction over cold tables: four sessions without log reuse each leave one level-0 table
@@ -193,7 +195,7 @@ fn make_cold_compaction_script(seed: u64) -> Script {
     for k in &pool {
         ops.push(ScriptOp::Get(k.clone()));
     }
-    Script { cfg, pool, ops, arm_at: Some(arm_at), short_writes: false }
+    Script { cfg, pool, ops, arm_at: Some(arm_at), short_writes: false, replay_on_shipped_file_systems: false }
 }
 
 fn make_script(history: u64, seed: u64, n_ops: usize) -> Script {
@@ -241,7 +243,7 @@ fn make_script(history: u64, seed: u64, n_ops: usize) -> Script {
             ops.push(ScriptOp::Reopen(Config { reuse: rng.chance(0.5), ..cfg }));
         }
     }
-    Script { cfg, pool, ops, arm_at: None, short_writes: false }
+    Script { cfg, pool, ops, arm_at: None, short_writes: false, replay_on_shipped_file_systems: false }
 }
 
 struct RunResult {
@@ -256,6 +258,7 @@ fn run_script(out: &mut CaseOut, script: &Script, fault: Option<Fault>, ctx: &se
     d.reset(7);
     let fs = SimFs::from_image(&dbutil::root_image());
     fs.set_short_writes(script.short_writes);
+    fs.record_journal(fault.is_some() && script.replay_on_shipped_file_systems);
     if script.arm_at.is_none() {
         fs.arm_fault(fault.clone());
     }
@@ -410,7 +413,62 @@ fn run_script(out: &mut CaseOut, script: &Script, fault: Option<Fault>, ctx: &se
     }
     sess.close();
     let _ = judged_fault;
+    if fault.is_some() && script.replay_on_shipped_file_systems {
+        replay_on_shipped_file_systems(out, &fs, ctx);
+    }
     Some(RunResult { counts, ops_after_fault })
+}
+
+/// The file systems raindb ships (disk-backed `OsFileSystem` and `TmpFileSystem`, and the in-memory
+/// one) are given the very calls this run made - a run with a failed call, orphan files, re-used
+/// file numbers and a recovery in it - and must end in the state the reference model ends in. With
+/// that, what the fault runs establish on the simulated file system carries over to the real ones.
+fn replay_on_shipped_file_systems(out: &mut CaseOut, fs: &SimFs, ctx: &serde_json::Value) {
+    use raindb::fs::{FileSystem, InMemoryFileSystem, OsFileSystem, TmpFileSystem};
+    use std::path::{Path, PathBuf};
+    let journal = fs.take_journal();
+    fs.record_journal(false);
+    let bytes: usize = journal.iter().map(|e| if let crate::simfs::JOp::Write { data, .. } = &e.op { data.len() } else { 0 }).sum();
+    if journal.is_empty() || bytes > 8 << 20 {
+        return;
+    }
+    static NEXT: std::sync::atomic::AtomicU64 = std::sync::atomic::AtomicU64::new(0);
+    let scratch = std::env::temp_dir().join(format!("rdbmon-c08-{}-{}", std::process::id(), NEXT.fetch_add(1, std::sync::atomic::Ordering::Relaxed)));
+    let _ = std::fs::remove_dir_all(&scratch);
+    if std::fs::create_dir_all(scratch.join("os")).is_err() || std::fs::create_dir_all(scratch.join("tmp")).is_err() {
+        out.inconclusive("could not create a scratch directory for the disk replay");
+        return;
+    }
+    let base = dbutil::root_image();
+    let relative = |p: &Path| -> PathBuf { p.strip_prefix("/").unwrap_or(p).to_path_buf() };
+    {
+        let os_root = scratch.join("os");
+        let os = OsFileSystem::new();
+        let tmp = TmpFileSystem::new(Some(&scratch.join("tmp")));
+        let mem = InMemoryFileSystem::new();
+        let targets: Vec<(&dyn FileSystem, Box<dyn Fn(&Path) -> PathBuf>)> = vec![
+            (&os, Box::new(move |p: &Path| os_root.join(relative(p)))),
+            (&tmp, Box::new(move |p: &Path| relative(p))),
+            (&mem, Box::new(|p: &Path| p.to_path_buf())),
+        ];
+        for (target, map) in targets {
+            let report = crate::simfs::replay_for_conformance(target, &*map, &base, &journal);
+            out.add("conformance_replays", 1);
+            out.add("conformance_ops_replayed", report.ops_replayed);
+            out.add("conformance_files_compared", report.files_compared);
+            out.add("conformance_truncating_creates_of_nonempty_files", report.truncating_creates_of_nonempty_files);
+            out.add("conformance_renames_over_existing", report.renames_over_existing);
+            out.add("conformance_recreated_files_that_stayed_shorter", report.recreated_files_that_stayed_shorter);
+            if report.truncating_creates_of_nonempty_files > 0 {
+                out.nontrivial(format!("conformance/{}/re-created-a-nonempty-file{}", target.get_name(), if report.recreated_files_that_stayed_shorter > 0 { "/that-stayed-shorter" } else { "" }));
+            }
+            for (what, detail) in report.divergences.iter().take(2) {
+                out.violate(format!("C08/shipped-file-system-diverges-from-the-model/{}/{what}", target.get_name()), json!({"ctx": ctx, "file_system": target.get_name(), "detail": detail,
+                    "journal_entries": journal.len(), "note": "the calls of this fault run, replayed against the file system raindb ships, leave a different state than the reference file system the run was judged on"}));
+            }
+        }
+    }
+    let _ = std::fs::remove_dir_all(&scratch);
 }
 
 /// Group commit under a failing write-ahead log: a leader is parked before its WAL append, 2-5
@@ -786,7 +844,13 @@ fn case_iterator_faults(out: &mut CaseOut, seed: u64, idx: u64) {
     }
     let pool = gen::key_pool(&mut rng, KeyFamily::Ascii, 60);
     let mut counter = 0u64;
-    for i in 0..rng.range(200, 400) {
+    let n_load = rng.range(200, 400);
+    // a snapshot from the middle of the load keeps shadowed versions alive in the deeper levels
+    let mut pinned: Option<(raindb::Snapshot, crate::session::Map)> = None;
+    for i in 0..n_load {
+        if i == n_load * 2 / 3 {
+            pinned = Some((sess.db().get_snapshot(), sess.model.clone()));
+        }
         let k = rng.pick(&pool).clone();
         let r = if rng.chance(0.2) {
             sess.delete(&k)
@@ -834,6 +898,44 @@ fn case_iterator_faults(out: &mut CaseOut, seed: u64, idx: u64) {
     out.add("iterator_steps_under_faults", checker.steps);
     let reported = checker.reported_errors;
     drop(checker);
+    // point reads under the same faults: an error, or exactly the value of the state read - never
+    // the value of a shadowed older version from a deeper file, never KeyNotFound for a stored key
+    let mut get_errors = 0u64;
+    let mut gets = 0u64;
+    let mut gets_fired = 0u64;
+    'rounds: for _round in 0..150 {
+        let kind = if rng.chance(0.8) { OpKind::Read } else { OpKind::OpenRead };
+        fs.arm_fault(Some(Fault { kind, class: PathClass::Table, nth: rng.range(0, 6), mode: FaultMode::Transient, after_effect: false }));
+        for _ in 0..8 {
+            let k = rng.pick(&pool).clone();
+            let at_snapshot = pinned.is_some() && rng.chance(0.4);
+            let (got, want) = match (&pinned, at_snapshot) {
+                (Some((snap, model)), true) => (sess.get_at(Some(snap), &k), model.get(&k).cloned()),
+                _ => (sess.get(&k), sess.model.get(&k).cloned()),
+            };
+            gets += 1;
+            match got {
+                Err(_) => get_errors += 1,
+                Ok(v) if v == want => {}
+                Ok(v) => {
+                    let what = if v.is_none() { "key-not-found-for-a-stored-key" } else if at_snapshot { "other-value-at-snapshot" } else { "other-value" };
+                    out.violate(format!("C08/get-under-read-fault/{what}"), json!({"ctx": ctx, "key": show(&k), "read_at_snapshot": at_snapshot,
+                        "got": v.as_ref().map(|v| show(v)), "expected": want.as_ref().map(|v| show(v)), "fault_fired": fs.fault_fired().0 > 0,
+                        "fault_kind": format!("{kind:?}")}));
+                    break 'rounds;
+                }
+            }
+        }
+        gets_fired += (fs.fault_fired().0 > 0) as u64;
+        fs.arm_fault(None);
+    }
+    fs.arm_fault(None);
+    out.add("gets_under_faults", gets);
+    out.add("get_fault_rounds_fired", gets_fired);
+    out.add("get_errors_reported", get_errors);
+    if let Some((snap, _)) = pinned {
+        sess.db().release_snapshot(snap);
+    }
     sess.close();
     if fired > 0 && files >= 2 {
         out.nontrivial(format!("iterator-faults/l0heavy{}/files{}/reported{}", level0_heavy as u8, files.min(12), reported.min(9)));
@@ -920,6 +1022,7 @@ pub fn run_case(tier: &str, seed: u64, idx: u64) -> CaseOut {
     let fault = Fault { kind, class, nth, mode, after_effect };
     // every other write fault is a short write: half of the bytes reach the file before the error
     script.short_writes = kind == OpKind::Write && (idx / 3) % 2 == 1;
+    script.replay_on_shipped_file_systems = history != 4 && idx % 2 == 0;
     let short_writes = script.short_writes;
     let ctx = json!({"history": history, "failing_write_is_short": short_writes, "config": script.cfg.describe(), "fault": {"call": kind.name(), "on": class.name(), "occurrence": nth,
         "of_about": pilot.counts.get(&(kind, class)), "mode": mode.name(), "error_reported_after_effect": after_effect}});
